@@ -13,6 +13,9 @@ EXTENDS WalkRef, FilterRef, FollowRef, TarRef, Json, IOUtils, TLC
 Trace == ndJsonDeserialize(IOEnv.VERIF_TRACE)
 VARIABLES l, failed
 vars == <<l, failed>>
+\* the verdict list is bounded, but per clause set: a flood of one kind of failure (a recorded finding, say) never crowds
+\* out a failure of another kind
+Full(fl, bad) == Len(fl) >= 6000 \/ Cardinality({i \in DOMAIN fl : fl[i].clauses = bad}) >= 400
 
 Pfx(prop, S) == {prop \o "." \o c : c \in S}
 
@@ -62,7 +65,7 @@ Init == l = 1 /\ failed = <<>>
 Step == /\ l <= Len(Trace)
         /\ LET e == Trace[l]
                bad == Judge(e)
-           IN failed' = IF bad = {} \/ Len(failed) >= 2000 THEN failed
+           IN failed' = IF bad = {} \/ Full(failed, bad) THEN failed
                         ELSE Append(failed, [case |-> e.case, line |-> l, clauses |-> bad])
         /\ l' = l + 1
 Spec == Init /\ [][Step]_vars
